@@ -28,4 +28,23 @@ def cmsOrdered (ok : Nat → Nat → Bool) : (sigs : List Nat) → (keys : List 
   | _ :: _, [] => false
   | s :: ss, k :: ks => if ok s k then cmsOrdered ok ss ks else cmsOrdered ok (s :: ss) ks
 
+/-- the comparison `Input.verify` makes since the repair F101: signature `j` counts for key `x` only
+when its hash type byte is the one the digest was made for (`h`) -/
+def okTyped (h : Nat) (ht : Nat → Nat) (valid : Nat → Nat → Bool) : Nat → Nat → Bool :=
+  fun j x => ht j == h && valid j x
+
+/-- one input as `Transaction.verify` sees it -/
+structure VIn where
+  /-- the previous transaction id is all zeros (`script_type == 'coinbase'`) -/
+  coinbaseTyped : Bool
+  vout : Nat
+  /-- result of `Input.verify` (always `true` for an input typed coinbase) -/
+  sigsOk : Bool
+  deriving Repr, DecidableEq
+
+/-- `Transaction.verify` since the repair F102: every input must pass, and an input typed
+coinbase passes only as the single null-outpoint input of the transaction -/
+def txVerify (ins : List VIn) : Bool :=
+  ins.all fun i => if i.coinbaseTyped then (ins.length == 1 && i.vout == 0xffffffff) else i.sigsOk
+
 end Btc
